@@ -1,6 +1,7 @@
 #!/usr/bin/env python3
 """Self-test against false alarms: apply each BEHAVIOUR-PRESERVING edit from selftest/harmless/*.json to a scratch copy of
-/repo and run the named property checks: exit 0 (still proved) or 2 (undecided) are acceptable, exit 1 never is."""
+/repo and run the named property checks: exit 0 (still proved) or 2 (undecided) are acceptable, exit 1 never is.
+An entry with "expect": [2] is an edit that does not compile inside a contracted fn: it must be UNDECIDED for every property (never 0: nothing was verified)."""
 import glob, json, os, shutil, subprocess, sys, tempfile
 VERIF = os.path.dirname(os.path.dirname(os.path.abspath(__file__)))
 REPO = os.environ.get('VERIF_REPO', '/repo')
@@ -20,6 +21,8 @@ def main():
                     p = subprocess.run([os.path.join(VERIF, 'check'), prop], capture_output=True, text=True,
                                        env=dict(os.environ, VERIF_REPO=scratch, VERIF_NO_EVIDENCE='1', VERIF_REPLAY_DIR=os.path.join(scratch, '.verif-replays')))
                     res.append((prop, p.returncode))
+                    if p.returncode not in m.get('expect', [0, 2]):
+                        bad += 1; print(f"UNEXPECTED exit {p.returncode} for {m['id']} {prop} (expected one of {m.get('expect', [0, 2])})")
                     if p.returncode == 1:
                         bad += 1
                         print('\n'.join(l for l in p.stdout.split('\n') if l.startswith('VIOLATION'))[:600])
